@@ -28,6 +28,9 @@ type c09Case struct {
 	Source   string         `json:"library_source"` // "built", "grb", "removed"
 	PauseAt  int            `json:"pause_at_event"`
 	RemoveIn string         `json:"rule_removed_in_other_instance"`
+	// LibRemove: at the end the named rule is removed from the library itself (the blueprint), and an
+	// instance created after that must exist and behave like the remaining rules
+	LibRemove string `json:"rule_removed_from_library_afterwards,omitempty"`
 }
 
 // c09Lib returns the library to instantiate from (built, loaded from a binary image, or with a rule removed).
@@ -168,6 +171,32 @@ func c09Run(cc *c09Case) ([]string, map[string]interface{}, error) {
 			}
 		}
 	}
+	// the library itself loses a rule: instances can still be created, and they are the remaining rules
+	if cc.LibRemove != "" {
+		lib.RemoveRuleEntry(cc.LibRemove, obs.KBName, obs.KBVersion)
+		kbR, rerr := obs.InstanceOf(lib, obs.KBName, obs.KBVersion)
+		if rerr != nil {
+			v = append(v, fmt.Sprintf("NewKnowledgeBaseInstance failed after rule %s was removed from the library: %v", cc.LibRemove, rerr))
+		} else {
+			cr := *c
+			cr.Rules = nil
+			prepR := prepUse
+			prepR.ByName = map[string]*gast.Rule{}
+			for _, r := range c.Rules {
+				if r.Name != cc.LibRemove {
+					cr.Rules = append(cr.Rules, r)
+					prepR.ByName[r.Name] = r
+				}
+			}
+			cr.Init = cc.States[0]
+			rep := val.RunOn(&cr, &prepR, kbR)
+			if rep.Excluded == "" {
+				for _, m := range clauseViolations(rep) {
+					v = append(v, fmt.Sprintf("instance created after %s was removed from the library: %s", cc.LibRemove, m))
+				}
+			}
+		}
+	}
 	info["instances"] = k
 	info["fired_instance0"] = rep0.Fired
 	return v, info, nil
@@ -207,11 +236,14 @@ func c09Gen(rt *rapid.T) (*c09Case, *gen.RuleSet) {
 			cc.RemoveIn = c.Rules[rapid.IntRange(0, len(c.Rules)-1).Draw(rt, "removed_rule")].Name
 		}
 	}
+	if rapid.IntRange(0, 2).Draw(rt, "remove_from_library") == 0 {
+		cc.LibRemove = c.Rules[rapid.IntRange(0, len(c.Rules)-1).Draw(rt, "library_removed_rule")].Name
+	}
 	return cc, rs
 }
 
 func TestC09(t *testing.T) {
-	col := stats.New("C09", "generated rule sets (as C01, pairwise distinct saliences; built from text or loaded from a binary image), k = 1..5 instances with different facts per instance. (a) every NewKnowledgeBaseInstance call succeeds (before use, after other instances ran/removed rules); (b) every instance's run is validated against fresh single-rule truth and the reference replay; (c) state-hash isolation: a deep hash of everything reachable from a *KnowledgeBase by a generic reflection walk (all engine structs behind pointers/slices/maps, exported or not, incl. memo flags and remembered values; foreign objects by identity) is taken for the blueprint and the other instances before and after one instance executes, retracts and removes rules, and must not change; (d) interleaving: instance 0 is paused inside its j-th listener event while instance 1 runs to its end and has a rule removed and one retracted, then resumes - its trace must validate and equal its stand-alone run; (e) in the race-detector build G in {2,4,16,64} goroutines x GOMAXPROCS in {1,2,16} concurrently create instances from one library and execute them on their own facts: each result equals the sequential one and the detector reports no race. Non-trivial: at least 2 instances with different facts. Distinct by rule text + facts + interleaving point.",
+	col := stats.New("C09", "generated rule sets (as C01, pairwise distinct saliences; built from text or loaded from a binary image), k = 1..5 instances with different facts per instance. (a) every NewKnowledgeBaseInstance call succeeds (before use, after other instances ran/removed rules, and - in a third of the cases - after a rule was removed from the library itself, where the new instance must validate as the remaining rules); (b) every instance's run is validated against fresh single-rule truth and the reference replay; (c) state-hash isolation: a deep hash of everything reachable from a *KnowledgeBase by a generic reflection walk (all engine structs behind pointers/slices/maps, exported or not, incl. memo flags and remembered values; foreign objects by identity) is taken for the blueprint and the other instances before and after one instance executes, retracts and removes rules, and must not change; (d) interleaving: instance 0 is paused inside its j-th listener event while instance 1 runs to its end and has a rule removed and one retracted, then resumes - its trace must validate and equal its stand-alone run; (e) in the race-detector build G in {2,4,16,64} goroutines x GOMAXPROCS in {1,2,16} concurrently create instances from one library and execute them on their own facts: each result equals the sequential one and the detector reports no race. Non-trivial: at least 2 instances with different facts. Distinct by rule text + facts + interleaving point.",
 		"(e) samples schedules: the harness does not own the Go scheduler; the race detector is schedule-insensitive only for accesses that were executed")
 	defer col.Flush()
 	check(t, 0, budget(1200, 20000), func(rt *rapid.T) {
@@ -236,6 +268,9 @@ func TestC09(t *testing.T) {
 		}
 		if cc.RemoveIn != "" {
 			labels = append(labels, "rule_removed_in_other_instance")
+		}
+		if cc.LibRemove != "" {
+			labels = append(labels, "rule_removed_from_library_then_new_instance")
 		}
 		col.Case(fmt.Sprint(cc.Run.Text, cc.PauseAt, cc.RemoveIn, len(cc.States), cc.Source, cc.States[0].Go["F"].I64), nt, labels...)
 		if col.WantSample(nt) {
